@@ -90,7 +90,7 @@ def compare_group(impl, ref, mech_prefix):
     if npen:
         ip, wp = np.sort(impl[nres:]), np.sort(want[nres:])
         # penalties are sums over clps: conditioning of the clps applies
-        tp = T.lsq_tol(20, 6, max(float(np.abs(wp).max()), 1.0) * 10, ref["kappa"] ** 2)
+        tp = T.lsq_tol(20, 6, max(float(np.abs(wp).max()), 1.0) * 10, min(ref["kappa"], 1e150) ** 2)
         sp = float(np.abs(ip - wp).max() / tp)
         if sp > 1:
             return (f"{mech_prefix}:penalties", f"equal-area penalties {ip.tolist()} vs reference {wp.tolist()}", sp)
@@ -175,7 +175,7 @@ def judge_case(case, rec, log, start_factor=None, reuse=False):
                     try:
                         O.NNLS_SOLVER[0] = "scipy"
                         ref2 = O.evaluate_group(c, g, pv, data, bool(linked))
-                        regime = regime or ref2["kappa"] ** 2 >= T.C * 20 or ref2["huge"] or ref2["f13"]
+                        regime = regime or min(ref2["kappa"], 1e150) ** 2 >= T.C * 20 or ref2["huge"] or ref2["f13"]
                         second.append((linked, compare_group(ev["groups"][gi], ref2, "linked" if linked else "unlinked")))
                     except Exception:  # noqa
                         regime = True
